@@ -25,7 +25,9 @@ type acl struct {
 
 type rpcACL struct{ a *acl }
 
-func (r rpcACL) Check(target string) bool { return r.a.allowed[target] }
+// Check is a scheduling point: an ACL lookup takes time (it may be a call to a
+// backend), and targets are updated from one goroutine each.
+func (r rpcACL) Check(target string) bool { vrt.Yield(); return r.a.allowed[target] }
 
 func (a *acl) NewRPCACL(ctx context.Context) (subscribe.RPCACL, error) {
 	if a.fail {
